@@ -9,7 +9,7 @@ ASSUMPTIONS = ["reads inside tasks awaited by two parents (and below them) are n
 
 
 def strategy(tier):
-    return gen.programs(gen.Cfg(max_tasks=12 if tier == "quick" else 40, sync=True, ctx=("ov", "ov", "attr", "rec"), reads=True, dag=True, tools=("amap", "agen", "cwc", "retry"), tool_reads=True, agen_modes=("plain",),
+    return gen.programs(gen.Cfg(max_tasks=12 if tier == "quick" else 40, sync=True, ctx=("ov", "ov", "attr", "rec"), reads=True, dag=True, premade=True, tools=("amap", "agen", "cwc", "retry"), tool_reads=True, agen_modes=("plain",),
                                 convs=("call", "value", "wrapper"), ok_w=20,
                                 shapes=("ctxcomb", "ctxcomb", "ctxcomb", "stagger", "comb", "tree", "chain", "reentry", "diamond", "free", "free")))
 
